@@ -49,7 +49,7 @@ def prepare(unit):
         else:
             sh(["llvm-dis-14", bcs[0], "-o", ll])
         # 2. IR -> C
-        cmd = [os.path.join(td, "ir2c"), ll, gen_c] + roots
+        cmd = [os.path.join(td, "ir2c"), ll, gen_c] + roots + ["--rt", os.path.join(LIFT, "ir2c_rt.h")]
         for s in unit.get("stubs", []):
             cmd += ["--stub", s]
         for s in unit.get("throws", []):
@@ -69,7 +69,7 @@ def prepare(unit):
         drv_o = os.path.join(wd, "drv_real.o")
         sh(["gcc", "-O1", "-w", "-DNATIVE", "-I" + wd, "-I" + HDIR, "-c", drv, "-o", drv_o])
         extra = []
-        if unit.get("lib_sources"):
+        if unit.get("lib_sources") or unit.get("link_real_lib"):
             # the real functions live in libnano: link against the plain (un-instrumented) objects built from /repo's current tree
             _, plain, _ = build.build_lib()
             extra = plain
